@@ -298,6 +298,9 @@ func checkC08(c *Ctx, r *Report) {
 	checkDecoderAcceptsSerialised(c, r)
 	checkDecodedPadConsistent(c, r)
 	checkAESPadConvention(c, r)
+	// the serialiser encrypts under the IV it writes, packet after packet (C03's rule on the AES
+	// serialiser: IV, encrypter, pad arithmetic)
+	checkAESSerialiser(c, r)
 	r.Rule("aes-pad-arithmetic", "the AES serialiser pads every payload length to a block multiple with 0 ≤ n ≤ 15 pad bytes (what the decoder requires)", 1)
 	if fn := c.Method("pkg/ipmi", "AES128CBC", "SerializeTo"); fn != nil {
 		checkAESPadArithmetic(c, r, fn)
